@@ -11,4 +11,14 @@ CONSTANTS
   AtomicAsk = TRUE
   WithFailover = FALSE
   FixRefreshOnDialError = TRUE
+  StepwiseRefresh = FALSE
+  ClearBeforeFill = FALSE
+  MaxTicks = 0
+  LazyConnect = FALSE
+  AsyncRedirectDial = FALSE
+  TrackOrder = FALSE
+  WithDemotion = FALSE
+  ReadonlyEverywhere = TRUE
+  Pipelined = FALSE
+  MaxBurst = 4
 CHECK_DEADLOCK FALSE
